@@ -1,5 +1,7 @@
 import CircBuf.Lemmas.TieTac
 import CircBuf.Lemmas.Tie.IterTie
+import CircBuf.Lemmas.While
+import CircBuf.Lemmas.LiveEq
 set_option linter.unusedSimpArgs false
 set_option linter.unusedVariables false
 set_option maxHeartbeats 1000000
@@ -41,6 +43,104 @@ maybe theorem tie_drain_next_back (d : Drain) (s : Sys) : Gen.Drain_next_back d 
          | mk r s1 => cases r <;> rfl)
      · simp only [hlt, if_false, ite_false, bind_run, pure_run]
        all_goals rfl)
+
+maybe /-- the not-yet-yielded part as two slices (`Drain::as_slices` / `as_mut_slices`), on the states
+satisfying the invariant (during a drain the buffer has `size = 0`: `DrainInv` gives it) -/
+theorem tie_drain_as_slices (d : Drain) (s : Sys) (h : Inv s.buf) :
+    Gen.Drain_as_slices d s = Drain.asSlices d s := by
+  first | rfl | (tie2 h [Gen.Drain_as_slices, Drain.asSlices]; done)
+maybe theorem tie_drain_as_mut_slices (d : Drain) (s : Sys) (h : Inv s.buf) :
+    Gen.Drain_as_mut_slices d s = Drain.asSlices d s := by
+  first | rfl | (tie2 h [Gen.Drain_as_mut_slices, Drain.asSlices]; done)
+
+/-- `Drain::as_slices` only reads -/
+theorem Drain.asSlices_state (d : Drain) (s : Sys) : (Drain.asSlices d s).2 = s := by
+  tieS [Drain.asSlices]
+
+maybe /-- one iteration of the back-fill loop of `Drop for Drain`, on a well-formed loop state: the checked
+arithmetic is evaluated (no branch can fail there), so the order in which the body advances its three
+variables, or nests its `min`s, does not matter -/
+theorem tie_drain_drop_step (d : Drain) (x : CSP × CSP × Nat) (s : Sys) (hI : LoopOK x) :
+    Gen.Drain_drop_step d x s = backfillStep x s := by
+  first
+  | rfl
+  | (rw [backfillStep_run x s hI]
+     obtain ⟨h1, h2, h3, h4⟩ := hI
+     obtain ⟨⟨bl, bo⟩, ⟨hl, ho⟩, rem⟩ := x
+     simp only [backfillChunk] at *
+     simp only [Gen.Drain_drop_step, CSP.availableLen, CSP.ptr, CSP.add, bind_assoc_run, dassert_bind, getBuf_bind,
+       setBuf_bind, pure_bind_run, raise_bind, ite_bind, ite_run, dassert_run, getBuf_run, setBuf_run, liftE_bind,
+       pure_run, raise_run, amod, smod, setItems, decide_eq_true_eq]
+     repeat' (first
+       | rfl
+       | minUnify
+       | (simp (disch := omega) only [if_pos, addMod_ite, usub_ok', phys_ite, liftE_bind, liftE_run, pure_run,
+           bind_assoc_run, pure_bind_run, setBuf_bind, getBuf_bind])
+       | ifsplit1)
+     done)
+
+maybe /-- the whole loop, for every amount of fuel: the congruence of `whileFuel` under the invariant `LoopOK` -/
+theorem tie_drain_drop_loop (d : Drain) (fuel : Nat) (x : CSP × CSP × Nat) (s : Sys) (hI : LoopOK x) :
+    whileFuel (fun x : CSP × CSP × Nat => decide (x.2.2 > 0)) (Gen.Drain_drop_step d) fuel x s =
+      backfillLoop fuel x.2.1 x.1 x.2.2 s := by
+  rw [backfillLoop_eq_while]
+  exact whileFuel_congr _ _ _ LoopOK (fun x s hI _ => tie_drain_drop_step d x s hI)
+    (fun x s x' s' hI _ hg => backfillStep_pres x s x' s' hI hg) fuel x s hI
+
+maybe /-- `Drop for Drain`: the two guards, then — on the state they leave, whose buffer they did not touch — the
+circular pointers (well formed because the range lies inside the capacity) and the loop (`tie_drain_drop_loop`) -/
+theorem tie_drain_drop (d : Drain) (s : Sys) (h : Inv s.buf) (hrs : d.rs ≤ s.buf.cap) (hre : d.re ≤ s.buf.cap) :
+    Gen.Drain_drop d s = Drain.drop d s := by
+  first
+  | rfl
+  | (
+     have hW := h.cap_lt
+     have hst := h.start_lt
+     simp only [Gen.Drain_drop, Drain.drop, bind_run, tie_drain_as_mut_slices d s h]
+     have hs0 := Drain.asSlices_state d s
+     cases hsl : Drain.asSlices d s with
+     | mk r s0 =>
+       rw [hsl] at hs0
+       simp only at hs0
+       subst hs0
+       cases r with
+       | error p => rfl
+       | ok rl =>
+         obtain ⟨right, left⟩ := rl
+         simp only []
+         have hb := tryFinally_buf _ _ (dropInPlace_buf right.slots) (dropInPlace_buf left.slots) s0
+         cases htf : tryFinally (dropInPlace right.slots) (dropInPlace left.slots) s0 with
+         | mk r1 s1 =>
+           rw [htf] at hb
+           simp only at hb
+           cases r1 with
+           | error p => rfl
+           | ok u =>
+             simp only [getBuf_bind, getBuf_run, ite_run, bind_assoc_run, liftE_bind, hb]
+             by_cases hc : s0.buf.cap = 0
+             · simp only [hc, if_true, ite_true]
+             · simp only [hc, if_false, ite_false]
+               have hcpos : 0 < s0.buf.cap := by omega
+               have hstlt : s0.buf.start < s0.buf.cap := by omega
+               cases hu : usub d.bufSize d.re with
+               | error p => rfl
+               | ok a =>
+                 simp only [bind_run]
+                 have e1 := CSP.add_run ⟨s0.buf.cap, 0⟩ s0.buf.start s1 (by dsimp only; omega) (by dsimp only; omega) (by dsimp only; omega)
+                 simp only [e1]
+                 have hp := phys_lt 0 s0.buf.cap s0.buf.start hcpos
+                 have e2 := CSP.add_run ⟨s0.buf.cap, phys 0 s0.buf.cap s0.buf.start⟩ d.rs s1 (by dsimp only; omega) (by dsimp only; omega) (by dsimp only; omega)
+                 have e3 := CSP.add_run ⟨s0.buf.cap, phys 0 s0.buf.cap s0.buf.start⟩ d.re s1 (by dsimp only; omega) (by dsimp only; omega) (by dsimp only; omega)
+                 simp only [e2, e3]
+                 rw [tie_drain_drop_loop d (a + 1) _ s1 ⟨phys_lt _ _ _ hcpos, hW, phys_lt _ _ _ hcpos, hW⟩]
+                 simp only []
+                 generalize backfillLoop (a + 1) _ _ a s1 = z
+                 obtain ⟨r2, s2⟩ := z
+                 cases r2 with
+                 | error p => rfl
+                 | ok u2 =>
+                   simp only [liftE_run, setSize, getBuf_bind, setBuf_run, pure_run, bind_run]
+                   cases usub d.bufSize (d.re - d.rs) <;> rfl)
 
 maybe theorem tie_drain_len (d : Drain) (s : Sys) : Gen.Drain_len d s = (.ok d.len, s) := by
   first | rfl | tie [Gen.Drain_len, Drain.len]
